@@ -77,15 +77,17 @@ func (sf ScrubFields) Clean(payload map[string]interface{}) {
 
 func (sf ScrubFields) clean(payload map[string]interface{}, path []string, fields map[string][]string) bool {
 	if len(path) == 0 {
+		// an object which does not tell its type is described by every entry of this path,
+		// taking whichever entry the map yields first makes the answer depend on iteration order
+		tn, hasTypename := payload[common.TypenameFieldName]
 		for typename, fields := range fields {
-			if tn, ok := payload[common.TypenameFieldName]; ok && typename != tn {
+			if hasTypename && typename != tn {
 				continue
 			}
 
 			for _, f := range fields {
 				delete(payload, f)
 			}
-			break
 		}
 		return len(payload) == 0
 	}
